@@ -57,9 +57,10 @@ def segEval (a b c d t : Rat) : Rat := a * t ^ 3 + b * t ^ 2 + c * t + d
 def segD1 (a b c t : Rat) : Rat := 3 * a * t ^ 2 + 2 * b * t + c
 def segD2 (a b t : Rat) : Rat := 6 * a * t + 2 * b
 def segD3 (a : Rat) : Rat := 6 * a
-/-- the piece-wise antiderivative used by `Integrate` (`x_j` is the left knot, `X` the abscissa) -/
+/-- the piece-wise antiderivative used by `Integrate` (`x_j` is the left knot, `X` the abscissa);
+    since fix d3bfb03 the linear term is taken relative to the left knot like the others -/
 def segStem (a b c d xj X : Rat) : Rat :=
-  a / 4 * (X - xj) ^ 4 + b / 3 * (X - xj) ^ 3 + c / 2 * (X - xj) ^ 2 + d * X
+  a / 4 * (X - xj) ^ 4 + b / 3 * (X - xj) ^ 3 + c / 2 * (X - xj) ^ 2 + d * (X - xj)
 
 /-! ## Index search (Bisection, Hunt, Locate) -/
 
@@ -177,10 +178,17 @@ def Obj.locate (o : Obj) (v : Rat) : Except Err (Nat × Obj) :=
 def Obj.cubicAt (o : Obj) (j : Nat) (v : Rat) : Rat :=
   o.pref * segEval (coefA o.N o.x o.y j) (coefB o.N o.x o.y j) (coefC o.N o.x o.y j) (coefD o.y j) (v - o.x j)
 
+/-- what `Interpolate(x)` returns once `Locate` has chosen interval `j` (fix 5863798): at the last abscissa
+    `x == x_values[N-1]` the tabulated value itself, `prefactor * function_values[N-1]`; otherwise the cubic of
+    interval `j`.  (Over the rationals both branches agree on a strictly increasing table:
+    `Lp.C01.valueAt_eq_cubicAt`.) -/
+def Obj.valueAt (o : Obj) (j : Nat) (v : Rat) : Rat :=
+  if v = o.x (o.N - 1) then o.pref * o.y (o.N - 1) else o.cubicAt j v
+
 /-- `Interpolate(x)` -/
 def Obj.interpolate (o : Obj) (v : Rat) : Except Err (Rat × Obj) := do
   let (j, o') ← o.locate v
-  pure (o.cubicAt j v, o')
+  pure (o.valueAt j v, o')
 
 /-- `Derivative(x, k)` -/
 def Obj.derivative (o : Obj) (v : Rat) (k : Nat) : Except Err (Rat × Obj) := do
